@@ -53,7 +53,9 @@ func (e *signhistEngine) Gen(seed uint64, tier string, run int) *Trace {
 	c.Instant = t.Format(time.RFC3339)
 	// swarm: key subset of this run (keeps collisions and repeats frequent)
 	var keys []int
-	switch r.Intn(5) {
+	switch r.Intn(6) {
+	case 5:
+		keys = []int{8, 9, 0} // CA-issued leaves (issuer != subject; same issuer, different serials)
 	case 0:
 		keys = []int{0, 4} // issuer+serial collision pair
 	case 1:
